@@ -157,9 +157,20 @@ class ImportEnv(C.CsrEnv):
         if m:
             b, rng = deref(args[0]), args[1]
             k = z3.simplify(rng.fields[0].v.e)
-            return one(Opaque("slice", f"{path_of(b)}[{'..' + str(k) if m.group(1) == 'RangeTo' else str(k) + '..'}]"))
-        if re.match(r"^<&\[u8\] as TryInto<\[u8; \d+\]>>::try_into$", c):
-            return result(z3.BoolVal(True), Opaque("array", path_of(args[0])), "try_into")
+            desc = f"{path_of(b)}[{'..' + str(k) if m.group(1) == 'RangeTo' else str(k) + '..'}]"
+            total = self.m.len_of(b)
+            if getattr(eng, "track_panics", False) and st.feasible(k > total):
+                eng.panics.append((list(st.pc) + [k > total], f"slice index {desc} out of range", "?"))
+            st.pc.append(k <= total)
+            self.slice_len = getattr(self, "slice_len", {})
+            self.slice_len[desc] = k if m.group(1) == "RangeTo" else total - k
+            return one(Opaque("slice", desc))
+        m = re.match(r"^<&\[u8\] as TryInto<\[u8; (\d+)\]>>::try_into$", c)
+        if m:
+            sl = deref(args[0])
+            ln = getattr(self, "slice_len", {}).get(sl.data) if isinstance(sl, Opaque) and sl.what == "slice" else None
+            ok = z3.BoolVal(True) if ln is None else (ln == int(m.group(1)))
+            return result(ok, Opaque("array", path_of(args[0])), "try_into")
         if re.match(r"^TbsCertificate::<'_>::iter_extensions$", c):
             return one(Opaque("x509ext-iter", 0))
         if re.match(r"^<std::slice::Iter<'_, X509Extension<'_>> as Iterator>::find_map::<", c):
@@ -171,7 +182,8 @@ class ImportEnv(C.CsrEnv):
         if re.match(r"^<Vec<u8> as (std::convert::)?Into<SerialNumber>>::into$", c):
             return one(args[0])
         if re.match(r"^<&\[u8\] as (std::convert::)?Into<Vec<u8>>>::into$", c):
-            return one(Opaque("to_vec", deref(args[0])))
+            src = deref(args[0])
+            return one(Opaque("to_vec", src if isinstance(src, Opaque) else Opaque("bytes-at", path_of(src))))
         return C.CsrEnv.__call__(self, eng, callee, args, st)
 
     def find_map(self, eng, args, st, k):
@@ -511,14 +523,13 @@ class NameEnv(C.CsrEnv):
             return one(Opaque("attr-iter", (deref(args[0]).data, 0)))
         if re.match(r"^<std::slice::Iter<'_, AttributeTypeAndValue<'_>> as Iterator>::next$", c):
             cell = args[0].cell
-            k, j = cell.v.data
-            cell.v = Opaque("attr-iter", (k, j + 1))
-            if j == 0:
-                # (x509-parser's RDN sets are non-empty; the empty case is the documented panic of from_name)
-                return one(Opt(z3.BoolVal(True), Ref(Cell(Opaque("attr", k)))))
-            return one(Opt(z3.Bool(f"rdn{k}_multi_valued"), Ref(Cell(Opaque("attr-extra", k)))))
+            return one(self.attr_next(cell))
+        if re.match(r"^<std::slice::Iter<'_, RelativeDistinguishedName<'_>> as Iterator>::flat_map::<", c):
+            return one(Opaque("flat-map", (Cell(args[0]), Cell(args[1]), Cell(None))))
+        if re.match(r"^<FlatMap<.*> as Iterator>::next$", c) or re.match(r"^<std::iter::FlatMap<.*> as Iterator>::next$", c):
+            return self.flat_next(eng, args[0].cell, st, 0)
         if re.match(r"^AttributeTypeAndValue::<'_>::attr_type$", c):
-            return one(Ref(Cell(Opaque("attr-oid", deref(args[0]).data))))
+            return one(Ref(Cell(Opaque("attr-oid", str(deref(args[0]).data)))))
         if re.match(r"^Oid::<'_>::iter$", c):
             o = deref(args[0])
             return one(Opt(z3.Bool(f"attr{o.data}_oid_arcs_fit_u64"), Opaque("oid-arcs", o)))
@@ -547,6 +558,57 @@ class NameEnv(C.CsrEnv):
             k = _attr_index(args[0])
             return one(Z(z3.Const(f"attr{k}_text", E.DnPayload)))
         return C.CsrEnv.__call__(self, eng, callee, args, st)
+
+
+def _attr_next(self, cell):
+    k, j = cell.v.data
+    cell.v = Opaque("attr-iter", (k, j + 1))
+    if j == 0:
+        # (x509-parser's RDN sets are non-empty - `many1`; the empty case is the documented panic of from_name)
+        return Opt(z3.BoolVal(True), Ref(Cell(Opaque("attr", str(k)))))
+    if j == 1:
+        return Opt(z3.Bool(f"rdn{k}_multi_valued"), Ref(Cell(Opaque("attr", f"{k}x"))))
+    return Opt(z3.BoolVal(False), None)
+
+
+def _flat_next(self, eng, cell, st, depth):
+    """FlatMap::next over (RDN iterator, closure): the inner iterator's next, else advance the outer one"""
+    if depth > MAX_RDN + 1:
+        return [(st, Opt(z3.BoolVal(False), None))]
+    outer_c, clo_c, inner_c = cell.v.data
+    out = []
+    if inner_c.v is not None:
+        r = _attr_next(self, inner_c)
+        s_some = st.clone()
+        s_some.pc.append(r.cond)
+        if s_some.feasible():
+            out.append((s_some, Opt(z3.BoolVal(True), r.payload)))
+        st.pc.append(z3.Not(r.cond))
+        if not st.feasible():
+            return out
+        inner_c.v = None
+    # advance the outer iterator
+    k = outer_c.v.data
+    if k >= MAX_RDN:
+        return out + [(st, Opt(z3.BoolVal(False), None))]
+    outer_c.v = Opaque("rdn-iter", k + 1)
+    present = z3.Bool(f"rdn{k}_present")
+    s_end = st.clone()
+    s_end.pc.append(z3.Not(present))
+    if s_end.feasible():
+        out.append((s_end, Opt(z3.BoolVal(False), None)))
+    st.pc.append(present)
+    if not st.feasible():
+        return out
+    res = list(eng.call_closure(clo_c.v, [Ref(Cell(Opaque("rdn", k)))], st))
+    if len(res) != 1 or res[0][0] is not st:
+        raise Unsupported("flat_map closure with more than one path")
+    inner_c.v = res[0][1]
+    return out + _flat_next(self, eng, cell, st, depth + 1)
+
+
+NameEnv.attr_next = _attr_next
+NameEnv.flat_next = _flat_next
 
 
 def ob_from_name(fns):
